@@ -663,7 +663,9 @@ func (s *UDPSession) SetRateLimit(bytesPerSecond uint32) {
 
 // SetLogger configures the kcp trace logger
 func (s *UDPSession) SetLogger(mask KCPLogType, logger logoutput_callback) {
+	s.mu.Lock()
 	s.kcp.SetLogger(mask, logger)
+	s.mu.Unlock()
 }
 
 // Control applys a procedure to the underly socket fd.
@@ -881,6 +883,8 @@ func (s *UDPSession) GetOOBMaxSize() int {
 		return 0
 	}
 	// Packet layout: | conv (4B) | OOB payload |
+	s.mu.Lock()
+	defer s.mu.Unlock()
 	return int(s.kcp.mtu) - convSize
 }
 
